@@ -656,6 +656,13 @@ pub fn run_check(def: &PropDef, tier: Tier, seed: u64, max_items: Option<u64>) -
     for (n, c) in agg.notes.iter().take(12) {
         println!("NOTE ({c}x) {n}");
     }
+    // the code under test used something the simulator does not model: no verdict
+    if let Some((n, c)) = agg.notes.iter().find(|(n, _)| n.starts_with("harness-limitation")) {
+        println!("HARNESS-ERROR: {n} ({c} runs)");
+        if exit_code == 0 {
+            exit_code = 2;
+        }
+    }
     for l in &known_lines {
         println!("{l}");
     }
